@@ -8,6 +8,8 @@ A case = "type <opt|exp|var|box|uptr|umem|tup> <F|M|C>" + one op per line (see c
    (an op that would stop in the assertion hook ends a case, so those are rare but present)."""
 import itertools
 
+THROW_MAGIC = 3735928559     # El's converting constructor throws on this argument (coq: throw_magic)
+
 KINDS = {"opt": "FMC", "exp": "FMC", "var": "FMC", "box": "FMC", "uptr": "F", "umem": "F", "tup": "FMC"}
 NEEDS_COPY = {"opt": {"newcval", "newcopy", "assign"}, "exp": {"newcopy", "assign"}, "var": {"newcopy", "assign"},
               "box": set(), "uptr": set(), "umem": set()}
@@ -27,8 +29,10 @@ def alphabet(ty, kind, vs=(0, 1), core=False, exp_copy_assign=True):
     dpairs = [(i, j) for i, j in pairs if i != j]
     if ty == "opt":
         for i in vs:
-            ops += ["new %d" % i, "newval %d 5" % i, "del %d" % i, "emplace %d 6" % i, "reset %d" % i, "get %d" % i]
+            ops += ["new %d" % i, "newval %d 5" % i, "del %d" % i, "emplace %d 6" % i, "reset %d" % i, "get %d" % i,
+                    "emplace %d %d" % (i, THROW_MAGIC)]
             if not core:
+                ops += ["newconv %d %d" % (i, THROW_MAGIC)]
                 ops += ["newnull %d" % i, "newcval %d 4" % i, "newconv %d 3" % i, "cassign %d none" % i, "cassign %d 7" % i,
                         "cmassign %d none" % i, "cmassign %d 8" % i, "assignval %d 9" % i, "has %d" % i]
         if not core:
@@ -50,7 +54,8 @@ def alphabet(ty, kind, vs=(0, 1), core=False, exp_copy_assign=True):
             ops += ["assign %d %d" % (i, j), "massign %d %d" % (i, j)]
     elif ty == "var":
         for i in vs:
-            ops += ["new %d" % i, "newval %d 0 5" % i, "newval %d 2 6" % i, "del %d" % i, "emplace %d 1 7" % i, "apply %d" % i]
+            ops += ["new %d" % i, "newval %d 0 5" % i, "newval %d 2 6" % i, "del %d" % i, "emplace %d 1 7" % i, "apply %d" % i,
+                    "emplace %d 1 %d" % (i, THROW_MAGIC)]
             if not core:
                 ops += ["newval %d 1 4" % i, "assignval %d 0 8" % i, "assignval %d 2 9" % i, "emplace %d 0 3" % i, "tag %d" % i]
         if not core:
@@ -61,9 +66,9 @@ def alphabet(ty, kind, vs=(0, 1), core=False, exp_copy_assign=True):
             ops += ["assign %d %d" % (i, j), "massign %d %d" % (i, j)]
     elif ty == "box":
         for i in vs:
-            ops += ["new %d" % i, "init %d 5" % i, "destruct %d" % i, "get %d" % i]
+            ops += ["new %d" % i, "init %d 5" % i, "destruct %d" % i, "get %d" % i, "init %d %d" % (i, THROW_MAGIC)]
             if not core:
-                ops += ["construct_with %d 6" % i, "arrow %d" % i, "deref %d" % i, "valid %d" % i, "bool %d" % i]
+                ops += ["construct_with %d %d" % (i, THROW_MAGIC), "construct_with %d 6" % i, "arrow %d" % i, "deref %d" % i, "valid %d" % i, "bool %d" % i]
         # "del" of an initialized box is outside the documented use (leaks by design); the generator issues
         # del only on variable 1 after a destruct
     elif ty == "uptr":
@@ -139,7 +144,8 @@ def gen_case(rng, ty, kind, n_ops, exp_copy_assign=True):
         t = op.split()
         name, i = t[0], int(t[1])
         # randomise operands
-        if name in ("newval", "newcval", "newconv", "emplace", "assignval", "init", "construct_with", "make", "resetnew"):
+        throwing = t[-1] == str(THROW_MAGIC)
+        if name in ("newval", "newcval", "newconv", "emplace", "assignval", "init", "construct_with", "make", "resetnew") and not throwing:
             t[-1] = str(rng.choice([0, 1, 7, 255, 2**32 - 1, rng.randrange(1, 10**6)]))
             if ty == "var":
                 t[2] = str(rng.randrange(3))
@@ -180,6 +186,10 @@ def gen_case(rng, ty, kind, n_ops, exp_copy_assign=True):
         lines.append(op)
         if stops:
             break
+        if throwing:
+            if name == "emplace":
+                st[i] = "n"        # the old value is gone, no new one
+            continue
         # tracker update (approximate for variant alternatives: the harness/model decide asserts exactly)
         if st[i] == "-" and is_ctor:
             if name in ctor_full or name == "newsucc":
@@ -243,8 +253,21 @@ def il_cases(rng=None, n=0):
         cs.append(("g-il-%d" % i, ["type il F"] + ["fwd %d %d" % (rng.randrange(0, 9), rng.randrange(-5, 100)) for _ in range(4)] + ["one %d" % rng.randrange(0, 9)]))
     return cs
 
+def thr_cases(rng=None, n=0):
+    """fault injection at every element construction point (comp/holders/throw_part.hpp)"""
+    cs = [("ex-thr", ["type thr F", "sweep 5 6"])]
+    for i in range(n):
+        cs.append(("g-thr-%d" % i, ["type thr F", "sweep %d %d" % (rng.randrange(0, 1000), rng.randrange(0, 1000))]))
+    return cs
+
 def corpus(exp_copy_assign=True):
     cs = []
+    # seeded change caught in round 2 (follow-up 2): optional::emplace on an engaged optional keeps _non_null set while
+    # the constructor throws
+    cs.append(("corpus-opt-emplace-throws", ["type opt F", "newconv 0 5", "emplace 0 %d" % THROW_MAGIC, "has 0", "emplace 0 7", "get 0"]))
+    cs.append(("corpus-var-emplace-throws", ["type var F", "newval 0 1 5", "emplace 0 2 %d" % THROW_MAGIC, "tag 0", "emplace 0 1 %d" % THROW_MAGIC, "emplace 0 0 3"]))
+    cs.append(("corpus-box-init-throws", ["type box F", "new 0", "init 0 %d" % THROW_MAGIC, "valid 0", "construct_with 0 %d" % THROW_MAGIC, "init 0 4", "get 0"]))
+    cs.append(("corpus-thr-sweep", ["type thr F", "sweep 5 6"]))
     # seeded change caught in round 2: manual_box::initialize with T{args...} (vector<int>(3, 7) became {3, 7})
     cs.append(("corpus-il-initialize-braces", ["type il F", "fwd 3 7", "one 3"]))
     # seeded change caught in round 2: _tuple::storage converting constructor taking its source by value
